@@ -286,6 +286,23 @@ func extractGroup(repo, root string) error {
 		return fmt.Errorf("untranslated: Reader.unsubscribe does not call a cancel func")
 	}
 
+	// consumergroup.go nextGeneration: which collection the partition watchers are started over
+	watcherRange := ""
+	if fd := funcOf(gf, "ConsumerGroup", "nextGeneration"); fd != nil {
+		ast.Inspect(fd.Body, func(n ast.Node) bool {
+			if rs, ok := n.(*ast.RangeStmt); ok && contains(rs.Body, func(m ast.Node) bool {
+				c, ok := m.(*ast.CallExpr)
+				return ok && sel(c.Fun) == "partitionWatcher"
+			}) {
+				watcherRange = sel(rs.X)
+			}
+			return true
+		})
+	}
+	if watcherRange == "" {
+		return fmt.Errorf("untranslated: no `for … range … { …partitionWatcher(…) }` in nextGeneration")
+	}
+
 	// reader.go NewReader: the ConsumerGroupConfig literal — which ReaderConfig field feeds which ConsumerGroupConfig field
 	var optPairs []string
 	if fd := funcOf(rf, "", "NewReader"); fd != nil {
@@ -320,6 +337,7 @@ func extractGroup(repo, root string) error {
 	fmt.Fprintf(&b, "def leaveRequestFields : List (String × String) := [%s]\n", strings.Join(leaveReq, ", "))
 	fmt.Fprintf(&b, "def generationLiteral : List (String × String) := [%s]\n", strings.Join(genLit, ", "))
 	fmt.Fprintf(&b, "def unsubscribeCancels : String := %q\n", unsubCancels)
+	fmt.Fprintf(&b, "def watcherRange : String := %q\n", watcherRange)
 	fmt.Fprintf(&b, "def fetchVersionFilter : String := %q\n", versionOp)
 	fmt.Fprintf(&b, "def readerGroupOptions : List (String × String) := [%s]\n", strings.Join(optPairs, ", "))
 	b.WriteString("end KV.Gen.Group\n")
